@@ -38,7 +38,7 @@ Definition decide (magic : list Z) : decision :=
   match magic2int magic with
   | None => DErr StructErr
   | Some magic_int =>
-      let magic' := if match magic with b0 :: _ => b0 =? 48 | [] => false end
+      let magic' := if match magic with b0 :: b1 :: _ => (b0 =? 48) && (b1 =? 0) | _ => false end   (* magic[0:2] == b"0\x00": PyPy 3.2's 48 *)
                     then match int2magic (3180 + 7) with Some m => m | None => magic end else magic in
       match version_of magic_int with
       | Err KeyErr => DErr ImportErr
